@@ -4,6 +4,7 @@
  * "read/clear/xor k bits at (row, col)" of these functions is proved in range for all shapes. */
 #ifndef ORCH_SHAPE_CONTRACTS_H
 #define ORCH_SHAPE_CONTRACTS_H
+#define VP_SOLVE_TRACE /* the public left-hand solves carry the solve-trace ghost in this family (their plain contracts are enforced in S.mzd_trsm_*_left) */
 #include "tri_shape_contracts.h"
 
 extern int vg_plive; /* ghost: live permutations created by the code under proof */
@@ -61,7 +62,7 @@ rci_t mzd_ple(mzd_t *A, mzp_t *P, mzp_t *Q, int const cutoff)
 __CPROVER_requires(PLUQ_REQ(A, P, Q, cutoff)) __CPROVER_assigns(vg_rank) __CPROVER_ensures(RANK_OK(__CPROVER_return_value, A) && vg_rank == __CPROVER_return_value);
 
 /* public triangular solves with a left-hand triangle: conforming, B has columns; an empty triangle (rank 0) is allowed */
-#define TRSM_L0(T, B) (SHP(T) && SHP(B) && (T)->nrows == (T)->ncols && (T)->ncols == (B)->nrows && (B)->ncols >= 1)
+#define TRSM_L0(T, B) TRSM_L(T, B)
 void mzd_trsm_lower_left(mzd_t const *L, mzd_t *B, const int cutoff)
 __CPROVER_requires(TRSM_L0(L, B) && CUT_OK(cutoff)) __CPROVER_assigns(vg_live, vg_tri) __CPROVER_ensures(vg_live == __CPROVER_old(vg_live));
 void mzd_trsm_upper_left(mzd_t const *U, mzd_t *B, const int cutoff)
